@@ -214,8 +214,8 @@ def gen_spec(H: Chooser, feat=None) -> dict:
             fields.append([f"f{k}", t])
         # dependent refinement: a later field depends on an earlier small-domain field
         if feat["dependent"] and len(fields) >= 1 and H.draw(2):
-            key_t = H.pick([["ann", ["int"], ["IntRange", 0, 2]], ["bool"]])
-            keys = [0, 1, 2] if key_t[0] == "ann" else [False, True]
+            key_t = H.pick([["ann", ["int"], ["IntRange", 0, 2]], ["bool"], ["ann", ["int"], ["IntRange", -2, 0]]])
+            keys = [key_t[2][1] + i for i in range(3)] if key_t[0] == "ann" else [False, True]
             dep_base = H.pick(["int", "str"])
             table = []
             for kv in keys:
